@@ -4,6 +4,8 @@
 (*    status, exit, errlen, err,              runner.Result as reported by the runner            *)
 (*    report: << [t, v], ... >>, eof, ext,    what the probe itself wrote before / after its     *)
 (*                                            attempt: the kernel truth about what ended it      *)
+(*    cancel, cancelled, endedfirst,          the caller's context was cancelled around the end; *)
+(*                                            endedfirst: the program was a zombie before it    *)
 (*    setup]                                  non-empty: the driver could not set the case up    *)
 (* Verdicts: ok | viol (property breached on real code) | drift (implementation layer)           *)
 (*         | model (kernel truth differs from Status!KernelFatal) | setup | nolaunch             *)
@@ -54,6 +56,11 @@ Judge(o) ==
             IF o.runner = "ptrace" /\ p.k = "signal" /\ a = ExitEnd(SurvivorExit) /\ HasTag(o, "survived")
             THEN V("viol", "fatal-signal-discarded-by-the-tracer", p)
             ELSE V("model", "kernel-truth-differs", p)
+       \* the caller cancelled around the end and it is not known that the program was gone before: it
+       \* ended as announced, or the cancellation's SIGKILL got there first -- nothing else is admissible
+       ELSE IF o.cancel # "none" /\ ~o.endedfirst THEN
+            IF Conforms(R(o), a) \/ (o.status = StTLE /\ o.exit = SIGKILL) THEN V("ok", "", a)
+            ELSE V("viol", "cancelled-run-neither-own-end-nor-kill", a)
        ELSE IF ~Conforms(R(o), a) THEN
             V("viol", IF o.status # Classify(a).status THEN "wrong-status" ELSE "wrong-exit-value", a)
        ELSE IF a.k = "signal" /\ o.exit # ImplExit(o) THEN V("drift", "exit-value", a)
